@@ -3,7 +3,7 @@ import fnmatch
 import itertools
 
 from harness.engine import Prop
-from harness.wire import to_wire, to_py
+from harness.wire import to_wire, to_py, to_py_shared
 
 # look-alikes of different types ("1" / 1 / True, "None" / None, "2.5" / 2.5, "a|b") keep apart answers that a text-keyed
 # memo or a str()-based comparison would merge
@@ -140,6 +140,12 @@ class C14(Prop):
             else:
                 case['cassette'] = rng.choice(['memory', 'file'])
             cases.append(case)
+        # one alternatives list / operator object used under two keys of the filter
+        for shared in ([False, None], [1, 'x*', None], {'operator': '>=', 'value': 1}):
+            for kind in ('memory', 'file', 's3'):
+                f = {'a': shared, 'b': shared}
+                cases.append({'kind': 'listing', 'cassette': kind, 'f': to_wire(f)['d'],
+                              'recs': [to_wire(r)['d'] for r in ({}, {'a': 1, 'b': 2}, {'a': None}, {'a': 'xy', 'b': False}, {'b': 1})]})
         # a missing value matches only a None alternative - through every cassette's listing, keys that JSON escapes included
         for key in ['a', 'é', 'q"uote']:
             for f in ({key: None}, {key: [1, None]}, {key: {'operator': '=', 'value': None}}, {key: [2]}, {key: 'x*'}):
@@ -206,7 +212,8 @@ class C14(Prop):
     # ------------------------------------------------------------------------------------------------------
     def run_impl(self, case):
         from playback.tape_cassette import TapeCassette
-        f = to_py({'d': case['f']})
+        # (equal lists / dicts inside the filter are ONE object, as when a caller reuses `not_set = [False, None]`)
+        f = to_py_shared({'d': case['f']})
         if case['kind'] == 'match':
             md = to_py({'d': case['md']})
             try:
